@@ -627,9 +627,9 @@ package trie
 //@   nosafe
 //@   assumecalleepre
 //@   purecallback hash
-//@   requires t != nil && t.storage != nil
-//@   modifies *
-//@   assigns rebuiltRoot, calls_PutRootKey, arg_PutRootKey_t, arg_PutRootKey_newRootKey, calls_DeleteRootKey, arg_DeleteRootKey_t
+//@   requires t != nil
+//@   modifies t.rootKeyIsDirty, t.storage, t.TrieReader.readStorage, t.dirtyNodes
+//@   assigns rebuiltRoot, calls_PutRootKey, arg_PutRootKey_newRootKey, calls_DeleteRootKey
 //@   sets rebuiltRoot = result0
 //@   callsite PutRootKey@*: the_current_key_into_this_tries_storage: $0 == t.storage && $1 == t.rootKey && t.rootKey != nil && t.rootKeyIsDirty
 //@   callsite DeleteRootKey@*: only_for_an_empty_trie: $0 == t.storage && t.rootKey == nil && t.rootKeyIsDirty
